@@ -42,6 +42,8 @@ def run(ctx):
                 labels.append(f"{os.path.basename(f)}/{mode}")
             lines.append(f"c02.run load:{f} {rng.choice(['raw', 'default'])} perturb:{rng.randrange(1, 10**6)}")
             labels.append(f"{os.path.basename(f)}/perturbed")
+            lines.append(f"c02.run load:{f} {rng.choice(['raw', 'default'])} interleave")
+            labels.append(f"{os.path.basename(f)}/interleaved")
         vers = ["ob", "fo3", "sk", "sse", "fo4", "fo4_132", "fo4_139", "fo76"]
         for ver in vers:
             for nv, nt in [(3, 1), (17, 30), (120, 200)]:
@@ -70,6 +72,18 @@ def run(ctx):
     for line, label, o in zip(lines, labels, out):
         if o.startswith("unloadable-synth"):
             skipped += 1
+            continue
+        if o.startswith("interleaved "):
+            nontrivial += 1
+            kv = dict(f.split("=", 1) for f in o.split(" ") if "=" in f)
+            if kv.get("same12") != "1" or kv.get("same23") != "1":
+                b, a_ = kv.get("strips", "0/0").split("/")
+                if int(b) > 0 and int(a_) == 0:
+                    k = next((k for k in ctx.known if k["fingerprint"].startswith("GetShapePartitions triangulates strip partitions")), None)
+                    if k:
+                        res.known.append(f"{k['what']} [{label}]")
+                        continue
+                bad.append((label, line, f"saves interleaved with read-only queries differ (sizes {kv.get('sizes')})"))
             continue
         if not o.startswith("sizes="):
             bad.append((label, line, "save sequence crashed or failed: " + o[:300]))
